@@ -463,6 +463,7 @@ where
         let fresh := match T.opDot op with
           | some d =>
             if m.forgot.getD r false then " fresh=na"
+            else if a != r then " fresh=na"  -- an actor used away from its own replica: the misuse the property excludes
             else if m.ops.any (fun (n, o) => n != name && T.opDot o == some d) then " fresh=FAIL" else " fresh=ok"
           | none => ""
         let m' := ({ m with ops := setKey name op m.ops }.setRep r (T.apply s op)).learn r [name]
